@@ -256,7 +256,7 @@ package proxy
 //@   ensures specReqOK(req) && req.ctx == old(req.ctx) && req.Body == old(req.Body)
 //@   ensures [C08] err == nil && fetched.Type == 1 ==> fetched.Direct.fetchInfo.UpstreamStatus == fetched.Direct.Response.StatusCode
 
-//@ props C07 C16 C15 C02
+//@ props C07 C16 C15 C02 C01
 //@ func Proxy.handleRangeRequest
 //@   ghost callsite-requires [C02] dedupFetch keyid(arg_key) == keyid(key)
 //@   nopanic
@@ -284,6 +284,10 @@ package proxy
 //@   ensures iserr(result, ErrIfRangeMismatch) ==> specEntryShape(cached)
 //@   ensures req.Body == old(req.Body)
 //@   requires [C16] hijacked(r) == 0
+// A mismatching If-Range leaves the response untouched: the full 200 that follows starts from a clean header set
+// (no Content-Range, no slice length).
+//@   ensures [C07,C01] result == ErrIfRangeMismatch ==> (forall k key :: in(resphdr(r), k) == old(in(resphdr(r), k)) && len(resphdr(r)[k]) == old(len(resphdr(r)[k])))
+//@   ensures [C07,C01] result == ErrIfRangeMismatch ==> (forall k key, i int :: 0 <= i && i < len(resphdr(r)[k]) ==> sid(resphdr(r)[k][i]) == old(sid(resphdr(r)[k][i])))
 
 // An If-Range does not match when it is an entity tag different from the stored
 // one, or a date earlier than the stored Last-Modified.
